@@ -245,6 +245,15 @@ def run_shard(ctx):
         sg2.x, sg2.y, sg2.z = (sg1.x + int(d[0] * dist / nrm), sg1.y + int(d[1] * dist / nrm),
                                sg1.z + int(d[2] * dist / nrm))
         shift = [draw(st.integers(-3000, 3000)) for _ in range(3)]
+        if draw(st.booleans()):
+            # the two cysteines in different chains, carrying the same residue number
+            n1 = ress[i][0].resnum
+            off = n1 - ress[j][0].resnum
+            for r in ress[3:]:
+                for a in r:
+                    a.chain, a.resnum = "B", a.resnum + off
+            ress[2].append(gen.make_oxt(ress[2]) or ress[2][-1])
+            ress[2] = [a for k, a in enumerate(ress[2]) if a not in ress[2][:k]]
         entries = [a for r in ress for a in r]
         entries = pdbio.move(entries, pdbio.ROTATIONS[draw(st.integers(0, 23))], tuple(shift))
         pdbio.renumber_serials(entries)
